@@ -1,5 +1,328 @@
 import NibabelModel.Model.C08
-/-! Props/C08 — the property theorems for C08 (statements + proofs; helper lemmas live in Lemmas/). -/
+import NibabelModel.Lemmas.C08_Vol
+import NibabelModel.Lemmas.C08_Trk
+import NibabelModel.Generated.C08
+/-! Props/C08 — the property theorems for C08 (a truncated file is never read back as different data). -/
 namespace Nb.C08
+
+/-- the header block of the image has the size the format prescribes, its two fields fit their width,
+    and a format with a fixed data offset (MGH) is padded up to exactly that offset -/
+structure Img.WF (fmt : VolFmt) (img : Img) : Prop where
+  hdr : fmt.hdrSize = 16 + img.fill.length
+  dlen : img.data.length < 2 ^ 64
+  off : singleOff fmt img < 2 ^ 64
+  fixed : ∀ o, fmt.fixedOff = some o → o = singleOff fmt img
+
+/-- what a reader may return for a damaged file: an error, or exactly the data written -/
+def Safe {α} (r : Except Err α) (want : α) : Prop := r = .ok want ∨ ∃ e, r = .error e
+
+/-- **volume_prefix.**  Single-file volumes (NIfTI-1/2 `.nii`, MGH, and with `exts = false` any
+    header‖data layout): whatever prefix of the written file a source delivers (`m` bytes, followed
+    by EOF or by an error — i.e. a plain truncated file or a truncated compressed stream), with or
+    without `mmap`, loading and reading the data raises or returns exactly the written data; it can
+    return them only if the prefix contains all of the data (what is lost is the MGH footer or
+    nothing). -/
+theorem volume_prefix (fmt : VolFmt) (img : Img) (wf : img.WF fmt) (um : Bool) (m : Nat) (st : Bool) :
+    let r := readSingle fmt um ⟨(writeSingle fmt img).take m, st⟩
+    Safe r img.data ∧ (r = .ok img.data → img.data = [] ∨ singleOff fmt img + img.data.length ≤ m) := by
+  intro r
+  simp only [r, readSingle]
+  split
+  · rename_i e _
+    exact ⟨Or.inr ⟨e, rfl⟩, fun h => by cases h⟩
+  · rename_i n off hh
+    obtain ⟨hb, hrd, hlen, hn, hoff⟩ := readHeader_ok hh
+    -- the complete header block was read from the prefix
+    have hblk : (hdrBlock img (singleOff fmt img)).length = fmt.hdrSize := by
+      simp [hdrBlock, leN_length, wf.hdr]; omega
+    have hfile : writeSingle fmt img =
+        hdrBlock img (singleOff fmt img) ++ (midBytes fmt img ++ img.data ++ img.footer) := by
+      simp [writeSingle, List.append_assoc]
+    rw [hfile, ← hblk] at hrd
+    have hb' : hb = hdrBlock img (singleOff fmt img) := by
+      rcases hdr_of_prefix _ _ _ _ _ hrd (by rw [hlen, hblk]) with h | h
+      · exact h
+      · rw [h] at hblk; have := wf.hdr; simp at hblk; omega
+    have hn' : n = img.data.length := by
+      rw [hn, hb', hdrBlock, rdLE_hdr0 _ _ _ wf.dlen]
+    have hoff' : off = singleOff fmt img := by
+      rw [hoff, hb', hdrBlock, rdLE_hdr8 _ _ _ wf.off]
+      cases hfo : fmt.fixedOff with
+      | none => rfl
+      | some o => simpa using wf.fixed o hfo
+    -- the data read
+    have hpre : (hdrBlock img (singleOff fmt img) ++ midBytes fmt img).length = singleOff fmt img := by
+      simp [hdrBlock, leN_length, singleOff]; omega
+    have := readData_prefix um (hdrBlock img (singleOff fmt img) ++ midBytes fmt img) img.data
+      img.footer m st
+    rw [hpre] at this
+    have hfile2 : writeSingle fmt img =
+        hdrBlock img (singleOff fmt img) ++ midBytes fmt img ++ img.data ++ img.footer := rfl
+    rw [hn', hoff', hfile2]
+    exact this
+
+example : Img.WF ⟨348, 348, true, none, 0⟩
+    { fill := List.replicate 332 7, extender := [1, 0, 0, 0], exts := [(6, [65, 66, 67, 0, 0, 0, 0, 0])],
+      pad := [], data := [1, 2, 3, 4], footer := [] } := by
+  refine ⟨by decide +kernel, by decide +kernel, by decide +kernel, fun o h => by cases h⟩
+
+/-- the complete file of that example does load (the reader is not trivially failing) -/
+example : readSingle ⟨348, 348, true, none, 0⟩ true (Src.plain (writeSingle ⟨348, 348, true, none, 0⟩
+    { fill := List.replicate 332 7, extender := [1, 0, 0, 0], exts := [(6, [65, 66, 67, 0, 0, 0, 0, 0])],
+      pad := [], data := [1, 2, 3, 4], footer := [] })) = .ok [1, 2, 3, 4] := by decide +kernel
+
+/-- **volume_prefix_plain.**  The property as stated for a plain file cut at `k < length`. -/
+theorem volume_prefix_plain (fmt : VolFmt) (img : Img) (wf : img.WF fmt) (um : Bool) (k : Nat)
+    (_hk : k < (writeSingle fmt img).length) :
+    let r := readSingle fmt um (Src.plain ((writeSingle fmt img).take k))
+    Safe r img.data ∧ (r = .ok img.data → img.data = [] ∨ singleOff fmt img + img.data.length ≤ k) :=
+  volume_prefix fmt img wf um k false
+
+/-! ### pairs (NIfTI-1/2 `.hdr/.img`, Analyze, SPM99, SPM2) -/
+
+/-- **pair_prefix (header member).**  Header file cut anywhere (image file intact): the load raises
+    or returns exactly the written data (what can be lost are the extender / trailing extensions). -/
+theorem pair_prefix_header (fmt : VolFmt) (img : Img) (hH : fmt.hdrSize = 16 + img.fill.length)
+    (hd : img.data.length < 2 ^ 64) (hf : fmt.fixedOff = none) (um : Bool) (m : Nat) (st : Bool) :
+    Safe (readPair fmt um ⟨(writeHdrFile fmt img).take m, st⟩ (Src.plain (writeImgFile img))) img.data := by
+  simp only [readPair]
+  split
+  · rename_i e _; exact Or.inr ⟨e, rfl⟩
+  · rename_i n off hh
+    have hfile : writeHdrFile fmt img =
+        hdrBlock img 0 ++ (if fmt.exts then img.extender ++ extBytes img else []) := rfl
+    rw [hfile] at hh
+    obtain ⟨hn, hoff, _⟩ := header_fields fmt img 0 _ false m st n off hH hd (by decide) hh
+    rw [hf] at hoff
+    have := readData_ok um [] img.data [] img.data.length (by simp)
+    simp at this
+    simp only [hn, hoff, Option.getD_none, writeImgFile, Src.plain]
+    exact Or.inl this
+
+/-- **pair_prefix (image member).**  Image file cut before its end (header file intact): always an
+    error. -/
+theorem pair_prefix_image (fmt : VolFmt) (img : Img) (hH : fmt.hdrSize = 16 + img.fill.length)
+    (hd : img.data.length < 2 ^ 64) (hf : fmt.fixedOff = none) (um : Bool) (m : Nat) (st : Bool)
+    (hm : m < img.data.length) :
+    ∃ e, readPair fmt um (Src.plain (writeHdrFile fmt img)) ⟨(writeImgFile img).take m, st⟩ = .error e := by
+  simp only [readPair]
+  split
+  · rename_i e _; exact ⟨e, rfl⟩
+  · rename_i n off hh
+    have hfile : Src.plain (writeHdrFile fmt img) =
+        ⟨(writeHdrFile fmt img).take (writeHdrFile fmt img).length, false⟩ := by
+      rw [List.take_length]; rfl
+    rw [hfile] at hh
+    obtain ⟨hn, hoff, _⟩ := header_fields fmt img 0
+      (if fmt.exts then img.extender ++ extBytes img else []) false _ false n off hH hd (by decide) hh
+    rw [hf] at hoff
+    have := readData_prefix um [] img.data [] m st
+    simp only [List.nil_append, List.append_nil, List.length_nil, Nat.zero_add] at this
+    simp only [hn, hoff, Option.getD_none, writeImgFile]
+    rcases this.1 with h1 | ⟨e, he⟩
+    · rcases this.2 h1 with h0 | h0
+      · rw [h0] at hm; simp at hm
+      · omega
+    · exact ⟨e, he⟩
+
+example : (⟨20, 0, false, none, 0⟩ : VolFmt).hdrSize = 16 + [1, 2, 3, 4].length ∧ 3 < [1, 2, 3, 4].length := by decide
+
+/-! ### MGH (footer optional) and every extension-less single file: exact characterisation -/
+
+/-- **mgh_prefix.**  For a single-file format without extension section and without sniffing (MGH:
+    header 90 bytes, data at 284, optional 20-byte footer) a plain file cut at `k` loads — with exactly
+    the written data — iff `k` reaches the end of the data; every shorter prefix raises.  So the only
+    thing a successful load of a truncated MGH file can have lost is (part of) the footer. -/
+theorem mgh_prefix (fmt : VolFmt) (img : Img) (wf : img.WF fmt) (hx : fmt.exts = false)
+    (hs : fmt.sniffLen = 0) (hd : img.data ≠ []) (um : Bool) (k : Nat) :
+    let r := readSingle fmt um (Src.plain ((writeSingle fmt img).take k))
+    (singleOff fmt img + img.data.length ≤ k → r = .ok img.data) ∧
+    (k < singleOff fmt img + img.data.length → ∃ e, r = .error e) := by
+  intro r
+  have hv := volume_prefix fmt img wf um k false
+  constructor
+  · intro hk
+    have hhs : fmt.hdrSize ≤ k := by
+      have := wf.hdr; simp only [singleOff] at hk; omega
+    have hblk : (hdrBlock img (singleOff fmt img)).length = fmt.hdrSize := by
+      simp [hdrBlock, leN_length, wf.hdr]; omega
+    -- the header phase succeeds
+    have hh : ∃ n off, readHeader fmt true ⟨(writeSingle fmt img).take k, false⟩ = .ok (n, off) := by
+      have hlen : (writeSingle fmt img).length = singleOff fmt img + img.data.length + img.footer.length := by
+        simp [writeSingle, hdrBlock, leN_length, singleOff]; omega
+      have hso : fmt.hdrSize ≤ singleOff fmt img := by
+        have := wf.hdr; simp only [singleOff]; omega
+      unfold readHeader
+      simp only [sniffOk, hs, if_true, Bool.false_eq_true, if_false, hx, Src.read,
+        Bool.false_and, List.drop_zero, List.length_take]
+      rw [if_neg (by simp), if_neg (by omega)]
+      split
+      · exact ⟨_, _, rfl⟩
+      · exact ⟨_, _, rfl⟩
+    obtain ⟨n, off, hh⟩ := hh
+    have hfile : writeSingle fmt img =
+        hdrBlock img (singleOff fmt img) ++ (midBytes fmt img ++ img.data ++ img.footer) := by
+      simp [writeSingle, List.append_assoc]
+    have hh' := hh
+    rw [hfile] at hh'
+    obtain ⟨hn, hoff, _⟩ := header_fields fmt img _ _ true k false n off wf.hdr wf.dlen wf.off hh'
+    have hoff' : off = singleOff fmt img := by
+      rw [hoff]
+      cases hfo : fmt.fixedOff with
+      | none => rfl
+      | some o => simpa using wf.fixed o hfo
+    have hpre : (hdrBlock img (singleOff fmt img) ++ midBytes fmt img).length = singleOff fmt img := by
+      simp [hdrBlock, leN_length, singleOff]; omega
+    have := readData_ok um (hdrBlock img (singleOff fmt img) ++ midBytes fmt img) img.data img.footer k
+      (by rw [hpre]; exact hk)
+    rw [hpre] at this
+    simp only [r, readSingle, Src.plain, hh, hn, hoff']
+    exact this
+  · intro hk
+    rcases hv.1 with h1 | he
+    · rcases hv.2 h1 with h0 | h0
+      · exact absurd h0 hd
+      · omega
+    · exact he
+
+/-- the MGH layout satisfies the hypotheses (2×2×2 int16 volume, complete footer) -/
+example : Img.WF ⟨90, 0, false, some 284, 20⟩
+    { fill := List.replicate 74 0, extender := [], exts := [], pad := List.replicate 194 0,
+      data := List.replicate 16 5, footer := List.replicate 20 1 } := by
+  refine ⟨by decide +kernel, by decide +kernel, by decide +kernel, fun o h => ?_⟩
+  cases h; decide +kernel
+
+/-! ### mmap path = read path -/
+
+/-- **mmap_eq_read.**  On an uncompressed file (`strict = false`) `array_from_file` returns the same
+    result through `np.memmap` as through `readinto` — for a file of sufficient length the mapped
+    bytes are the bytes read, for a shorter file numpy refuses the map and the read path reports the
+    shortage. -/
+theorem mmap_eq_read (s : Src) (off n : Nat) (hs : s.strict = false) :
+    dataMmap s off n = dataRead s off n := by
+  unfold dataMmap
+  split
+  · rename_i hc
+    unfold dataRead
+    rw [if_neg (by omega)]
+    simp only [Src.read, hs, Bool.false_and, Bool.false_eq_true, if_false]
+    rw [if_neg]
+    simp only [List.length_take, List.length_drop]; omega
+  · rfl
+
+/-! ### TRK -/
+
+/-- **trk_prefix.**  A TRK file as `TrkFile.save` writes it (the header stores the true number `n` of
+    streamlines), with `n ≥ 1`: EVERY strict prefix — cut in the header, at a record boundary, or inside a
+    record; plain or behind a decompressor — makes the (repaired) reader raise.  (`Trk.WF`: the three
+    opaque header regions have their sizes, counts fit their fields, each record holds
+    `npts*(3+n_scalars)` + `n_properties` float32 values.) -/
+theorem trk_prefix (t : Trk) (wf : t.WF) (h1 : 1 ≤ t.recs.length) (m : Nat) (st : Bool)
+    (hm : m < (trkWrite t).length) : ∃ e, trkRead ⟨(trkWrite t).take m, st⟩ = .error e :=
+  trkRead_prefix t wf h1 m st hm
+
+/-- two streamlines of one point each, no scalars / properties -/
+def trkEx : Trk :=
+  { nsc := 0, npr := 0, fillA := List.replicate 36 0, fillB := List.replicate 200 0,
+    fillC := List.replicate 748 0,
+    recs := [⟨1, List.replicate 12 1, []⟩, ⟨1, List.replicate 12 2, []⟩] }
+
+example : trkEx.WF ∧ 1 ≤ trkEx.recs.length ∧ 1016 < (trkWrite trkEx).length := by
+  refine ⟨⟨by decide +kernel, by decide +kernel, by decide +kernel, by decide, by decide, by decide, ?_⟩,
+    by decide, by decide +kernel⟩
+  intro r hr
+  simp only [trkEx, List.mem_cons, List.not_mem_nil, or_false] at hr
+  rcases hr with h | h <;> subst h <;> exact ⟨by decide, by decide, by decide⟩
+
+/-- the complete example file reads back as its two streamlines (the reader is not trivially failing) -/
+example : trkRead (Src.plain (trkWrite trkEx)) = .ok (trkData trkEx) := by decide +kernel
+
+/-- **trk_prefix_orig_counterexample.**  The pinned reader (no count check, before fix 5204b8c7): the
+    example file cut at the boundary after its first record (byte 1016) loads without error as ONE
+    streamline although the header announces two — different data; the repaired reader raises. -/
+theorem trk_prefix_orig_counterexample :
+    trkReadOrig (Src.plain ((trkWrite trkEx).take 1016)) = .ok [(List.replicate 12 1, [])] ∧
+    trkReadOrig (Src.plain ((trkWrite trkEx).take 1016)) ≠ .ok (trkData trkEx) ∧
+    trkRead (Src.plain ((trkWrite trkEx).take 1016)) = .error .trunc := by
+  decide +kernel
+
+/-- **trk_zero_count_header_cut** (observation (a) of the fix).  `_read_header` does not check how many
+    bytes `readinto` delivered: for the file of an EMPTY tractogram a 998- or 999-byte prefix (only
+    trailing zero bytes of `hdr_size` missing) parses as a valid header and loads as the same empty
+    tractogram — the complete, correct data, which the property allows; a 997-byte prefix raises. -/
+theorem trk_zero_count_header_cut :
+    let t : Trk := { trkEx with recs := [] }
+    trkRead (Src.plain ((trkWrite t).take 998)) = .ok (trkData t) ∧
+    trkRead (Src.plain ((trkWrite t).take 999)) = .ok (trkData t) ∧
+    trkRead (Src.plain ((trkWrite t).take 997)) = .error .bad := by
+  decide +kernel
+
+/-! ### XML formats: through the expat contract only -/
+
+/-- **xml_prefix.**  Under the expat contract written into `xmlRead` ("a document lacking its root end
+    tag raises"), every strict prefix of a document that ends with its root end tag raises. -/
+theorem xml_prefix (doc : Bytes) (m : Nat) (st : Bool) (hm : m < doc.length) :
+    ∃ e, xmlRead doc.length ⟨doc.take m, st⟩ = .error e := by
+  unfold xmlRead Src.readAll
+  cases st
+  · simp only [Bool.false_eq_true, if_false, List.drop_zero, List.length_take]
+    rw [if_pos (by omega)]; exact ⟨_, rfl⟩
+  · exact ⟨_, rfl⟩
+
+/-! ### compressed access -/
+
+/-- **codec_lift.**  Any reader that is safe on every prefix-source of a file (plain EOF or error at
+    the end) stays safe when the file is stored through a codec satisfying the prefix contract and the
+    compressed stream is cut anywhere. -/
+theorem codec_lift {α} (c : Codec) (R : Src → Except Err α) (file : Bytes) (want : α)
+    (hR : ∀ m st, Safe (R ⟨file.take m, st⟩) want) (k : Nat) (hk : k < (c.compress file).length) :
+    Safe (R (c.decompress ((c.compress file).take k))) want := by
+  obtain ⟨m, st, _, h⟩ := c.prefix_contract file k hk
+  rw [h]; exact hR m st
+
+/-- a codec with an end marker: lax before the marker … strict when it is missing -/
+def markerCodec : Codec where
+  compress x := x ++ [255]
+  decompress b := if b.getLast? = some 255 then Src.plain b.dropLast else ⟨b, true⟩
+  roundtrip x := by simp
+  prefix_contract x k hk := by
+    simp only [List.length_append, List.length_singleton] at hk
+    have hk' : k ≤ x.length := by omega
+    have : (x ++ [255]).take k = x.take k := by
+      rw [List.take_append_of_le_length hk']
+    rw [this]
+    split
+    · refine ⟨k - 1, false, by omega, ?_⟩
+      simp only [Src.plain, List.dropLast_eq_take, List.length_take, List.take_take]
+      congr 2; omega
+    · exact ⟨k, true, hk', rfl⟩
+
+/-- **codec_lift_volume.**  A truncated compressed single-file volume (`.nii.gz`, `.nii.bz2`, `.mgz`, …)
+    raises or yields exactly the written data, for every codec satisfying the contract. -/
+theorem codec_lift_volume (c : Codec) (fmt : VolFmt) (img : Img) (wf : img.WF fmt) (um : Bool) (k : Nat)
+    (hk : k < (c.compress (writeSingle fmt img)).length) :
+    Safe (readSingle fmt um (c.decompress ((c.compress (writeSingle fmt img)).take k))) img.data :=
+  codec_lift c (readSingle fmt um) _ _ (fun m st => (volume_prefix fmt img wf um m st).1) k hk
+
+example : 3 < (markerCodec.compress [1, 2, 3]).length := by decide
+
+/-! ### constants regenerated from the source on every run -/
+
+/-- **gen_constants_ok.**  The constants the model hard-codes are the ones the working tree of nibabel
+    declares (TRK header size and field offsets/widths, TCK magic and delimiters, sniff size), the TCK
+    delimiters are recognised as NaN / inf triples by the model's float classifier, and every writable
+    volume class has a layout the volume theorems apply to (header block of at least 16 bytes, sniff
+    within the header block; a format with a footer has a fixed data offset, no extension section and
+    no sniff — the hypotheses of `mgh_prefix`). -/
+theorem gen_constants_ok :
+    Gen.trkHdrSize = trkHdrSize ∧ Gen.trkDtypeSize = trkHdrSize ∧ Gen.trkOffNsc = trkOffNsc ∧
+    Gen.trkOffNpr = trkOffNpr ∧ Gen.trkOffCount = trkOffCount ∧ Gen.trkOffVersion = trkOffVersion ∧
+    Gen.trkOffHdrSize = trkOffHdrSize ∧ Gen.trkWidths = [2, 2, 4, 4, 4] ∧
+    Gen.tckMagic = tckMagic ∧ Gen.tckFiberDelim = nanTriple ∧ Gen.tckEofDelim = infTriple ∧
+    tripleAll f32IsNaN nanTriple = true ∧ tripleAll f32IsInf infTriple = true ∧
+    Gen.sniffMax = 1024 ∧
+    (∀ f ∈ Gen.volFmts, 16 ≤ f.hdrSize ∧ f.sniffLen ≤ f.hdrSize ∧ f.sniffLen ≤ Gen.sniffMax ∧
+      (f.footer ≠ 0 → f.fixedOff.isSome ∧ f.exts = false ∧ f.sniffLen = 0)) := by
+  decide
 
 end Nb.C08
